@@ -68,6 +68,12 @@ theorem cnt_set {α : Type} {p : α → Bool} {l : List α} {i : Nat} {a : α} (
     cnt p (l.set i b) + (if p a then 1 else 0) = cnt p l + (if p b then 1 else 0) :=
   sumOver_set (f := fun t => if p t then 1 else 0) b h
 
+theorem cnt_same' {α : Type} {p : α → Bool} {l : List α} {i : Nat} {a b : α} (h : l[i]? = some a)
+    (hp : p b = p a) : cnt p (l.set i b) = cnt p l := by
+  have := cnt_set (p := p) b h
+  rw [hp] at this
+  omega
+
 theorem cnt_le_length {α : Type} (p : α → Bool) (l : List α) : cnt p l ≤ l.length :=
   sumOver_le_length (fun x => by split <;> omega)
 
@@ -119,6 +125,7 @@ theorem nodup_swap {a b : List Nat} (h : (a ++ b).Nodup) : ([] ++ (b ++ a)).Nodu
 theorem nodup_erase_right {a b : List Nat} (t : Nat) (h : (a ++ b).Nodup) : (a ++ b.erase t).Nodup :=
   h.sublist ((List.Sublist.refl a).append List.erase_sublist)
 
+set_option linter.unnecessarySimpa false in
 theorem nodup_snoc_left {a b : List Nat} {t : Nat} (h : (a ++ b).Nodup) (ha : t ∉ a) (hb : t ∉ b) :
     ((a ++ [t]) ++ b).Nodup := by
   have p : ((a ++ [t]) ++ b).Perm (t :: (a ++ b)) := by
